@@ -33,7 +33,8 @@ LEVEL_TEXT = (
     "the true edge of is_of_type on the same literal; the range gates never compare a lossy cast of a payload (L1b); the reader decodes "
     "as many array elements as the type says (L7). Not decided: print/parse round trip, bit order inside integers, the "
     "identity program, decoding of malformed bit strings, and the range checks the *parser* path applies to unsuffixed "
-    "literals (check_or_constrain_*: value-level comparisons inside the type checker).")
+    "literals (check_or_constrain_*: value-level comparisons inside the type checker)."
+    " Also decided since the hunter rounds: the literal entry point returns Ok only at the end of the token stream, with an empty error list (L8); every parser function closes the brackets it opened on every path to Ok (L9); all four literal entry points resolve const sizes of the parameter type first (L10); the checker compares range ends with max() of the element type (L11); every GarbleProgram carries the computed const sizes (L12); the range payload of is_of_type is bounded like the number payloads (L1).")
 LEVEL_NOTE = ("Trusted: rustc MIR; UnsignedNumType::max / SignedNumType::{min,max} return the bounds of the named type (token.rs, "
               "read); Literal::parse ends in check_type, which is its gate.")
 EXPLANATION = ("Functions analysed: literal::Literal::{is_of_type, as_bits, from_unwrapped_bits}, GarbleProgram::literal_arg, "
